@@ -142,7 +142,13 @@ def consequences(ctx, n, nw, kinds):
         ctx.goal('ge_bare[%d]' % w, ctx.le(bare, d1[w]))
         ctx.goal('le_opaque[%d]' % w, ctx.le(d1[w], bare + A))
         ctx.goal('transparent_is_bare[%d]' % w, ctx.eq(d0[w], bare))
-        ctx.goal('monotone[%d]' % w, ctx.le(d1[w] - E10 * A, d2[w], scale=None if ctx.sym else 1.0))
+        # scaling the cross-sections up never raises a layer's transmittance by more than exp(-10) (either tau grows, or the
+        # scaled run was cut off above 10); the depth integral is linear in the transmittances with non-negative
+        # coefficients 2(Rp+z)dz/Rs^2 summing to A, so depth' >= depth - exp(-10) A follows -- asserted directly for n <= 2
+        for l in range(n):
+            ctx.goal('monotone_layer[%d,%d]' % (l, w), ctx.le(t2[l, w], t1[l, w] + E10, scale=None if ctx.sym else 1.0))
+        if n <= 2:
+            ctx.goal('monotone[%d]' % w, ctx.le(d1[w] - E10 * A, d2[w], scale=None if ctx.sym else 1.0))
 
 
 @harness('C01', 'geometry_old', quick=[dict(n=2), dict(n=3)], thorough=[dict(n=2), dict(n=3), dict(n=4), dict(n=5)],
